@@ -211,7 +211,11 @@ def commonBlockdim? (bd : List Dim?) : Except Err Dim? :=
   let nt := dedupe (bd.filter (fun d => decide (d.length > 1)))
   match nt with
   | [d] => .ok d
-  | [] => liftRes (Dask.Unify.commonBlockdim (bd.map toInts))
+  | [] =>
+    -- `max(blockdims, key=first)`: a one-element set returns its element (also when it is `(nan,)`)
+    (match dedupe bd with
+     | [d] => .ok d
+     | _ => liftRes (Dask.Unify.commonBlockdim (bd.map toInts)))
   | _ =>
     if bd.any hasNone then .error .valueError
     else liftRes (Dask.Unify.commonBlockdim (bd.map toInts))
